@@ -290,8 +290,10 @@ def item_env(env, items, labels=None):
     return place(fmt, parts)
 
 
-def newtheorem(env='thm', title='Theorem'):
-    return N('\\newtheorem{' + env + '}{' + title + '}', hid=[], spans=[(0, 17 + len(env) + len(title))])
+def newtheorem(env='thm', title='Theorem', star=''):
+    # star='*': the unnumbered form of amsthm
+    src = '\\newtheorem' + star + '{' + env + '}{' + title + '}'
+    return N(src, hid=[], spans=[(0, len(src))])
 
 
 def theorem(body, env='thm', title='Theorem', opt=None):
